@@ -44,7 +44,7 @@ CW = ('MVoro.Proofs.CycleWalk', 'MVoro.CycleWalk')
 def cw(name, orig, doc): return (name, CW[0], CW[1], orig, doc)
 CM = ('MVoro.Proofs.ClipModel', 'MVoro.ClipModel')
 def cm(name, orig, doc): return (name, CM[0], CM[1], orig, doc)
-prop('C18', 'clipping a cell is independent of vertex storage order', ['MVoro.Proofs.CycleBoundary', 'MVoro.Proofs.CycleWalk', 'MVoro.Proofs.ClipModel'], [
+prop('C18', 'clipping a cell is independent of vertex storage order', ['MVoro.Proofs.CycleBoundary', 'MVoro.Proofs.CycleWalk', 'MVoro.Proofs.ClipModel', 'MVoro.Proofs.ModelReach', 'MVoro.Proofs.ClipOrder'], [
   cb('step_keeps_boundary', 'step_closed', 'T18.2 one successful `try_extend` keeps "cycle edges = boundary of the triangles added so far"'),
   cb('init_boundary', 'init_inv', 'T18.2 after `init` the cycle is the boundary of the first triangle'),
   cb('closing_triangle_excluded_necessarily', 'step_del_closing_false', 'T18.2 the closing triangle of a full sphere must be excluded: the code would leave a wrong 2-cycle'),
@@ -67,6 +67,10 @@ prop('C18', 'clipping a cell is independent of vertex storage order', ['MVoro.Pr
   cw('new_vertex_pairs_are_boundary_edges', 'computeBoundary_pairs', 'T18.3 end to end: the `(cur, next)` pairs read from `iter().take(len + 1)` after `compute_boundary` are exactly the boundary edges of the removed region, each once'),
   cw('next_clip_may_reset', 'computeBoundary_reset', 'T18.1 the state left behind satisfies the reset invariant the next `init` needs'),
   cm('partition_loop_spec', 'partitionLoop_spec', 'the partition loop of `clip_by_plane` returns a permutation of the vertex array whose first `num_v` entries are exactly the kept vertices'),
+  ('abstract_clip_order_independent', 'MVoro.Proofs.ClipOrder', 'MVoro.ClipOrder', 'clipDuals_sameUpToRot', 'C18 itself, abstractly: two lists holding the same triples up to rotation, with corresponding triples removed in both or in neither, are clipped to two lists holding the same triples up to rotation'),
+  ('model_clip_order_independent', 'MVoro.Proofs.ClipOrder', 'MVoro.ClipOrder', 'model_clip_order_independent', 'C18 itself, for the executable model of clip_by_plane: whatever the storage order of the vertices and the rotation of their plane triples, two successful clips with the same decisions give the same set of vertices as cyclically ordered plane triples'),
+  ('invariants_independent_of_storage_order', 'MVoro.Proofs.ModelReach', 'MVoro.ModelReach', 'sgood_perm', 'T18.4 closedness, three planes per vertex, one umbrella per plane and Euler do not depend on the storage order of the vertices'),
+  ('model_clip_keeps_polytope_invariants', 'MVoro.Proofs.ModelReach', 'MVoro.ModelReach', 'model_clip_good', 'T18.4 at full strength for the executable model: if the duals of the vertex array form a closed surface with three planes per vertex, one umbrella per plane and V - E + F = 2, and `clip_by_plane` (model) succeeds, the duals of the new vertex array do again'),
   cm('clip_is_clipDuals', 'clip_spec', 'T18.3/T18.4 `clip_by_plane` (executable model) end to end: the clipped vertex array is, as a multiset of dual triples, `clipDuals T R p` = kept triples + one `(cur, next, p)` per boundary edge of the removed region - for every storage order and every rotation of the triples'),
 ])
 prop('C19', 'public geometry helpers satisfy their defining equations', ['MVoro.Proofs.GeomHelpers'], [
@@ -189,7 +193,7 @@ FP = ('MVoro.Proofs.FacesProofs', 'MVoro.FacesProofs')
 def fp(name, orig, doc): return (name, FP[0], FP[1], orig, doc)
 TS = ('MVoro.Proofs.Misc', 'MVoro.TypeStateProofs')
 def ts(name, orig, doc): return (name, TS[0], TS[1], orig, doc)
-prop('C15', 'extracted vertices and face polygons form a valid convex polytope', ['MVoro.Proofs.FacesProofs', 'MVoro.Proofs.Misc', 'MVoro.Proofs.GeomHelpers', 'MVoro.Proofs.Euler', 'MVoro.Proofs.EulerClip', 'MVoro.Proofs.LinkClip', 'MVoro.Proofs.EulerReach', 'MVoro.Proofs.ReachAll'], [
+prop('C15', 'extracted vertices and face polygons form a valid convex polytope', ['MVoro.Proofs.FacesProofs', 'MVoro.Proofs.Misc', 'MVoro.Proofs.GeomHelpers', 'MVoro.Proofs.Euler', 'MVoro.Proofs.EulerClip', 'MVoro.Proofs.LinkClip', 'MVoro.Proofs.EulerReach', 'MVoro.Proofs.ReachAll', 'MVoro.Proofs.FaceCycle', 'MVoro.Proofs.SortCycle'], [
   gh('vertex_on_its_three_planes', 'intersectPlanes_on', 'T15.1 `Vertex::from_dual` = intersect_planes of the three listed planes lies on all three (exact arithmetic, det != 0)'),
   fp('ordering_is_a_permutation', 'sortFaceVertices_perm', 'T15.2a whenever `sort_face_vertices` succeeds its result is a permutation of the vertices collected for the plane: no vertex is lost or duplicated by the ordering'),
   fp('vertex_listed_per_occurrence', 'count_collected', 'T15.2b vertex i is collected under plane p exactly as often as p occurs in its dual triple'),
@@ -209,5 +213,12 @@ prop('C15', 'extracted vertices and face polygons form a valid convex polytope',
   ('clip_keeps_all_combinatorial_invariants', 'MVoro.Proofs.EulerReach', 'MVoro.EulerReach', 'cstep_good', 'T15.3 closed surface, no repeated vertex, three different planes per vertex, one umbrella per plane, Euler: all preserved by every successful clip'),
   ('start_box_good', 'MVoro.Proofs.EulerReach', 'MVoro.EulerReach', 'box8_good', 'T15.3 the eight dual triples of ConvexCell::init satisfy them (8 + 4 = 2 * 6)'),
   ('euler_for_every_reachable_cell', 'MVoro.Proofs.EulerReach', 'MVoro.EulerReach', 'euler_reach', 'T15.3 at full strength for the combinatorial model: every surface reachable from the start box by successful clips satisfies V - E + F = 2 and has no pinched plane'),
+  ('face_is_one_simple_cycle', 'MVoro.Proofs.FaceCycle', 'MVoro.FaceCycle', 'face_cycle', 'T15.2 in a closed surface with three planes per vertex whose triples at plane p form one umbrella, walking from any vertex of the face across the edge that leaves p lists every vertex of the face exactly once, consecutive ones share a second plane, and the walk returns to its start: the order sort_face_vertices produces'),
+  ('every_face_of_a_reachable_cell_is_one_cycle', 'MVoro.Proofs.FaceCycle', 'MVoro.FaceCycle', 'reachable_face_cycle', 'T15.2 for every surface reachable from the start box by successful clips'),
+  ('sort_face_vertices_returns_the_cycle', 'MVoro.Proofs.SortCycle', 'MVoro.SortCycle', 'sortFaceVertices_cycle', 'T15.2 the array algorithm of with_faces (model Faces.sortFaceVertices, compared token by token with the code): on a vertex list that is a bijection onto a cycle in which only c k and c (k+1) contain the plane after p of c k, none of its expect/assert! fires and the result is the cycle in order; core Lean only'),
+  ('sort_face_vertices_on_a_closed_surface', 'MVoro.Proofs.SortCycle', 'MVoro.SortCycle', 'sort_of_surface', 'T15.2 the hypotheses of the previous theorem hold for every face of a closed surface with distinct edges, distinct planes per vertex and connected links, with c k = (nx T p)^[k] d0: the collected list (with_faces collection step) is ordered as the face cycle of FaceCycle'),
+  ('sort_face_vertices_on_reachable_cells', 'MVoro.Proofs.SortCycle', 'MVoro.SortCycle', 'reachable_sort', 'T15.2 for every surface reachable from the start box by successful clips, every face'),
+  ('sorted_face_is_a_closed_walk', 'MVoro.Proofs.SortCycle', 'MVoro.SortCycle', 'sorted_closed_walk', 'T15.2 in the ordered face every vertex is joined to the next and the last to the first by crossing the edge that leaves the face plane'),
+  ('with_faces_succeeds_on_reachable_cells', 'MVoro.Proofs.SortCycle', 'MVoro.SortCycle', 'reachable_withFaces', 'T15.2 the whole with_faces model (collection, ordering of every face, removal of empty faces) returns a result, i.e. no expect/assert! of the ordering step fires for any face of a reachable cell'),
   ('all_invariants_for_every_reachable_cell', 'MVoro.Proofs.ReachAll', 'MVoro.ReachAll', 'reachable_all', 'T15/T01.4/T10.5 combined: every cell reachable from the start cell by exact clips is geometrically good (vertices on their planes, positively oriented, inside all half spaces, closed surface) and combinatorially good (Euler, no pinched plane)'),
 ])
